@@ -116,8 +116,9 @@ type GhostField struct {
 
 // Shapes computes leaves for Go types.
 type Shapes struct {
-	Ghost map[string][]GhostField // by qualName of struct type
-	Open  map[string]map[string]bool // fields of external struct types that are modelled (open field T.name)
+	Ghost  map[string][]GhostField    // by qualName of struct type
+	Open   map[string]map[string]bool // fields of external struct types that are modelled (open field T.name)
+	FuncID func(VFunc) *Term          // identity of a function value that is stored in memory (set by the executor)
 }
 
 func (sh *Shapes) Leaves(t types.Type) []Leaf {
@@ -223,6 +224,11 @@ func (sh *Shapes) Flatten(v Val) []*Term {
 			out = append(out, sh.Flatten(f)...)
 		}
 		return out
+	case VFunc:
+		// a function value stored in memory: an integer identity registered with the executor
+		if sh.FuncID != nil {
+			return []*Term{sh.FuncID(v)}
+		}
 	}
 	panic(unsupported(fmt.Sprintf("flatten %T", v)))
 }
